@@ -178,6 +178,23 @@ class Effects:
                                              via=callee.name, fn=wr.fn))
                         continue
                     p = self.path(fi, arg, n)
+                    if p is None and rest.startswith('.'):
+                        # the argument is a fresh object: its attributes may alias what was handed to
+                        # the constructor (`Tape(.., flags=d)`): resolve attribute by attribute
+                        import re as _re
+                        m = _re.match(r'^((?:\.\w+)+)(.*)$', rest)
+                        if m:
+                            kinds = self.w.kinds(fi)
+                            from .kinds import K
+                            for leaf in kinds.of(arg, n).leaves():
+                                k2 = leaf
+                                for a in m.group(1).split('.')[1:]:
+                                    k2 = K('attr', base=k2, attr=a, node=None)
+                                p2 = kinds.path(k2)
+                                if p2 and not p2.startswith(('new@', 'copy@')):
+                                    out.append(Write(p2 + m.group(2), wr.op, n.line,
+                                                     via=(callee.name + ('>' + wr.via if wr.via else '')), fn=wr.fn))
+                        continue
                     if p:
                         out.append(Write(p + rest, wr.op, n.line,
                                          via=(callee.name + ('>' + wr.via if wr.via else '')), fn=wr.fn))
